@@ -89,9 +89,11 @@ def win1252High : List Nat :=
   [0x20AC, 0x81, 0x201A, 0x192, 0x201E, 0x2026, 0x2020, 0x2021, 0x2C6, 0x2030, 0x160, 0x2039, 0x152, 0x8D, 0x17D, 0x8F,
    0x90, 0x2018, 0x2019, 0x201C, 0x201D, 0x2022, 0x2013, 0x2014, 0x2DC, 0x2122, 0x161, 0x203A, 0x153, 0x9D, 0x17E, 0x178]
 
+/-- The windows-1252 table. -/
+def win1252 (b : Nat) : Nat := if 0x80 ≤ b ∧ b < 0xA0 then win1252High.getD (b - 0x80) b else b
+
 /-- windows-1252 → UTF-8 (a single-byte encoding: no state, nothing malformed). -/
-def transcode1252 (bs : Bytes) : Bytes :=
-  bs.flatMap fun b => utf8Encode (if 0x80 ≤ b ∧ b < 0xA0 then win1252High.getD (b - 0x80) b else b)
+def transcode1252 (bs : Bytes) : Bytes := bs.flatMap fun b => utf8Encode (win1252 b)
 
 /-- The reference transcoder per encoding; encodings that are not modelled are a parameter. -/
 def transcode (other : Nat → Bytes → Bytes) : Enc → Bytes → Bytes
